@@ -148,19 +148,36 @@ Theorem C16_trace_replays :
 Proof. exact query_trace_agrees. Qed.
 Print Assumptions C16_trace_replays.
 
-(* _memoize_default is NOT of that shape: an exception leaves the recursion default in the memo *)
+(* _memoize_default is NOT of that shape: an exception leaves the recursion default in the memo,
+   and the query that raised does not raise when asked again *)
 Theorem C16_memo_default_survives_exception_refuted :
   exists o s k, idle s /\ t_memo s = [] /\ raised_of (run_query o s) = true /\
-                memo_get k (t_memo (st_of (run_query o s))) = Some true /\ idle (st_of (run_query o s)).
+                memo_default k (t_memo (st_of (run_query o s))) = true /\ idle (st_of (run_query o s)) /\
+                raised_of (run_query o (st_of (run_query o s))) = false.
 Proof. exact memo_default_survives_exception. Qed.
 Print Assumptions C16_memo_default_survives_exception_refuted.
 
 Theorem C16_no_exception_no_default :
   forall o s, raise_free o = true ->
   raised_of (exec o s) = false /\
-  forall k, memo_get k (t_memo (st_of (exec o s))) = Some true -> memo_get k (t_memo s) = Some true.
+  forall k, memo_default k (t_memo (st_of (exec o s))) = true -> memo_default k (t_memo s) = true.
 Proof. exact no_exception_no_default. Qed.
 Print Assumptions C16_no_exception_no_default.
+
+(* the memo key ignores the transient flags: an entry computed while flow analysis was switched off
+   (find_references) is served to a later query running with flow analysis on; a fresh state computes
+   it under flow analysis *)
+Theorem C16_memo_ignores_flow_mode_refuted :
+  exists o1 o2 s k,
+    idle s /\ t_memo s = [] /\
+    let s1 := st_of (run_query o1 s) in
+    let s2 := st_of (run_query o2 s1) in
+    idle s1 /\ idle s2 /\ raised_of (run_query o1 s) = false /\
+    memo_get k (t_memo s2) = Some (false, false, false) /\ t_flow s1 = true /\
+    trace_of (run_query o2 s1) = [EReset] /\
+    memo_get k (t_memo (st_of (run_query o2 s))) = Some (false, true, false).
+Proof. exact memo_ignores_flow_mode. Qed.
+Print Assumptions C16_memo_ignores_flow_mode_refuted.
 
 (* non-vacuity: hypotheses are satisfiable and the model computes *)
 Example C16_example_infer :
@@ -182,5 +199,5 @@ Proof. vm_compute. split; reflexivity. Qed.
 Example C16_example_transients :
   let q := OFlowOff (OSeq (OExec 1 (ORec 2 (OPredef 3 4 (ODyn (OMemo 5 ORaise))))) OSkip) in
   raised_of (run_query q idle_state) = true /\ idleb (st_of (run_query q idle_state)) = true /\
-  memo_get 5%N (t_memo (st_of (run_query q idle_state))) = Some true.
+  memo_default 5%N (t_memo (st_of (run_query q idle_state))) = true.
 Proof. vm_compute. repeat split. Qed.
